@@ -134,7 +134,7 @@ static unsigned _GD_CopyScalars(DIRFILE *restrict D,
       E->scalar[i] = NULL;
     } else {
       /* check for correct affixes */
-      if (_GD_CheckCodeAffixes(D, entry->scalar[i], entry->fragment_index,
+      if (_GD_CheckCodeAffixes(D, entry->scalar[i], E->fragment_index,
             flags))
       {
         break;
